@@ -21,7 +21,7 @@ from specs import event_entry, startup
 from specs.event_entry import handler_effects, HANDLER_EFFECTS
 from specs.startup import has_method, block_call, has_method_call, sblocks_of
 
-declare_fields(_simtask=VAL, _finalized=BOOL, ev_set=BOOL, _init_done=Ref('AsyncEvent'))
+declare_fields(_simtask=VAL, _finalized=BOOL, ev_set=BOOL, _init_done=Ref('AsyncEvent'), _blocks=Map(STR, Ref('Block')))
 Q = 'edzed.simulator:Circuit.'
 CIRC, TASK = Int('the_circuit'), Int('the_simulation_task')
 AA = lambda: calls.C_class('AddonAsync')
@@ -90,6 +90,10 @@ def sim_await(ex, st, results):
     """an await inside the simulation task.  `results(state)` -> outcomes of the awaited thing after the environment step"""
     S = View(st)
     outs = []
+    if st.ghost.get('check_J'):
+        # (C05) the cross-task invariant J at this suspension point of run_forever itself (the awaits inside _simulate: C01)
+        ex.oblige('await:once_initialisation_is_reported_done_every_block_has_an_output_or_an_error_is_recorded', st,
+                  Implies(S.f('ev_set', S.f('_init_done', CIRC)), S.f('_error', CIRC) != Val.VNone), kind='code')
     ok = env_step(ex, st); T = View(ok)
     ok.assume(Not(S.f('cancel_requested', TASK)), Not(T.f('cancel_requested', TASK)), T.f('_error', CIRC) == S.f('_error', CIRC),
               Not(T.f('task_done', TASK)))
@@ -319,7 +323,7 @@ def verify_run_tasks(run):
                            'for (blk, task, timeout) in sorted(btt_list, key=operator.itemgetter(2), reverse=True)': inv_run_tasks},
                calls={'sorted': sorted_call, 'get_time': clock_call, 'task.done': task_pred('task_done'), 'task.cancelled': task_pred('task_cancelled'),
                       'task.exception': task_exception_call},
-               hooks={'await': awaits({'asyncio.wait_for(task, timeout - get_time() + start_time)': await_wait_for})})
+               hooks={'await': awaits({'asyncio.wait_for(*': await_wait_for})})
 
 
 # ---- Circuit._stop_sblocks ---------------------------------------------------------------------------------------------------------
@@ -626,11 +630,17 @@ def await_simulate(ex, node, st):
     """await self._simulate(): contract of _simulate (C01/C10): never returns; it ends by cancellation or by an error"""
     st = st.copy(); me = as_kind(st.env['self'], Ref(), st)
     ex.emit(st, rec('_simulate', Val.Obj(me)))
+    b = Int('b!sm')
+    # one circuit: every sequential block belongs to it
+    ex.oblige('call:_simulate/pre:sequential_blocks_are_initialised', st,
+              ForAll([b], Implies(And(st.comp('circuit', IntSort())[b] == me, calls.inst_of(b, calls.C_class('SBlock'))), st.comp('_output', Val)[b] != Val.Undef)), kind='pre')
     outs = []
+    chk = st.ghost.get('check_J'); st.ghost['check_J'] = False       # inside _simulate: its own suspension points (C01)
     for s2, r in sim_await(ex, st, lambda s: []):
+        s2.ghost['check_J'] = chk
         outs.append((s2, r))
     for cls in ('EdzedCircuitError', 'OtherException'):
-        b = env_step(ex, st); b.assume(Not(View(b).f('task_done', TASK))); b.label(f'_simulate:raises:{cls}')
+        b = env_step(ex, st); b.assume(Not(View(b).f('task_done', TASK))); b.label(f'_simulate:raises:{cls}'); b.ghost['check_J'] = chk
         outs.append((b, Raise(PExc(cls, val=Val.Obj(fresh('exc', IntSort())), where='callee'))))
     return outs
 
@@ -753,7 +763,7 @@ def inv_rf_save(lc):
 def verify_run_forever(run):
     none = K(IntSort(), BoolVal(False))
     G = {'phase': IntVal(0), 'cleanup': BoolVal(False), 'start_called': none, 'started': none, 'saved': none, 'start_completed': BoolVal(False),
-         'stop_called': BoolVal(False), 'last_unix': RealVal(0), 'first_err': Val.VNone, 'stop_arg': none, 'now': z3.Real('now0')}
+         'stop_called': BoolVal(False), 'last_unix': RealVal(0), 'first_err': Val.VNone, 'check_J': True, 'stop_arg': none, 'now': z3.Real('now0')}
     run.verify('Circuit.run_forever', cls='Circuit', ghost=G,
                invariants={'for blk in self.getblocks()': inv_rf_start,
                            'for blk in started_blocks.intersection(self.getblocks(addons.AddonPersistence))': inv_rf_save},
@@ -766,3 +776,271 @@ def verify_run_forever(run):
                       'await': awaits({'asyncio.sleep(0)': await_sleep0_rf, '_test_eager_tasks()': await_eager_test,
                                        'self._simulate()': await_simulate, 'self._stop_sblocks(started_blocks)': stop_sblocks_await,
                                        '*': await_contracted})})
+
+
+# ---- API coroutines running in other tasks: _check_started, wait_init, shutdown -----------------------------------------------------------
+def all_outputs_defined(S, me):
+    b = Int('b!ad')
+    return ForAll([b], Implies(my_blocks(S, me)(b), S.whole('_output')[b] != Val.Undef))
+
+
+def J(S, me):
+    """cross-task invariant of the simulation task, established by run_forever/_simulate at their suspension points:
+    once initialisation was reported done, every block has an output -- or an error has been recorded"""
+    return Implies(S.f('ev_set', S.f('_init_done', me)), Or(S.f('_error', me) != Val.VNone, all_outputs_defined(S, me)))
+
+
+def impose_simtask_set_once(S, T):
+    cx = Int('c!so')
+    new, old = T.whole('_simtask'), S.whole('_simtask')
+    T.st.heap['_simtask'] = z3.Lambda([cx], If(old[cx] != Val.VNone, old[cx], new[cx]))       # writers: __init__, run_forever (scan, C09)
+
+
+def other_await(ex, st, results, me):
+    """an await in a task other than the simulation task: everything other tasks (incl. the simulation task) may do"""
+    post = st.copy()
+    for f in ENV_FIELDS + ('_simtask', '_init_done', 'sblock_queue', '_finalized'): post.havoc_field(f)
+    S, T = View(st), View(post)
+    impose_error_write_once(S, T); impose_errors_are_exceptions(S, T); impose_outputs_stay_defined(S, T); impose_steps_only_advance(S, T)
+    impose_tasks_stay_done(S, T); impose_events_stay_set(S, T); impose_simtask_set_once(S, T)
+    # _init_done is assigned once, by run_forever before its first await after recording the task (so it is fixed once _simtask is set)
+    post.assume(Implies(S.f('_simtask', me) != Val.VNone, T.f('_init_done', me) == S.f('_init_done', me)))
+    post.assume(J(T, me))
+    # A-caller: the task awaiting an API coroutine (wait_init, shutdown) is not itself cancelled while it waits
+    return list(results(post))
+
+
+def _me(st): return as_kind(st.env['self'], Ref(), st)
+
+
+API_EFFECTS = tuple(dict.fromkeys(ENV_FIELDS + ('_simtask', '_init_done', 'sblock_queue', '_finalized')))
+
+
+@contract('Circuit._check_started', qual=Q + '_check_started', modifies=API_EFFECTS, self_cls='Circuit')
+def _check_started(c):
+    me = c.z('self')
+    if not c.verifying:
+        ENV_GUARANTEES(c.S, c.T); impose_simtask_set_once(c.S, c.T)
+        c.T.st.assume(Implies(c.pre('_simtask', me) != Val.VNone, c.post('_init_done', me) == c.pre('_init_done', me)), J(c.T, me))
+    c.requires('J', J(c.S, me))
+    c.ensures('the_simulation_task_exists', c.post('_simtask', me) != Val.VNone)
+    c.ensures('J', J(c.T, me))
+    c.raises('EdzedInvalidState', when=c.pre('_simtask', me) == Val.VNone, unchanged=False, label='not_started',
+             ensures=lambda post, exc: [post.f('_simtask', me) == Val.VNone])
+
+
+def await_other_sleep(ex, node, st):
+    return other_await(ex, st, lambda s: [(s, P_NONE)], _me(st))
+
+
+@contract('Circuit.wait_init', qual=Q + 'wait_init', modifies=API_EFFECTS, self_cls='Circuit')
+def _wait_init(c):
+    me = c.z('self')
+    c.requires('J', J(c.S, me))
+    c.requires('the_only_circuit', me == CIRC)
+    c.ensures('the_simulation_is_running', And(c.post('_simtask', me) != Val.VNone, Not(c.post('task_done', Val.ref(c.post('_simtask', me)))),
+                                               c.post('_error', me) == Val.VNone))
+    c.ensures('every_block_has_an_output', all_outputs_defined(c.T, me))
+    c.raises('EdzedInvalidState', unchanged=False, label='not_running_or_failed')
+    if c.verifying and CHECK_HELPER_TASK[0]:
+        helper_settled = lambda post: Or(post.g('helper') == Val.VNone,
+                                         post.f('task_done', Val.ref(post.g('helper'))), post.f('cancel_requested', Val.ref(post.g('helper'))))
+        c.ensures('helper_task_is_not_left_behind', helper_settled(c.T))
+        c.out.raises[0].ensures = lambda post, exc: [helper_settled(post)]
+
+
+CHECK_HELPER_TASK = [False]        # C08: the helper task of wait_init is not left behind
+
+
+def init_done_wait(ex, e, st):
+    """self._init_done.wait(): the coroutine waiting for the event"""
+    me = _me(st); ev = st.readz('_init_done', me)
+    c = coro_of(StringVal('Event.wait'), ev)
+    st = st.copy(); st.assume(coro_name(c) == StringVal('Event.wait'), coro_recv(c) == ev)
+    return [(st, ZV('val', c))]
+
+
+def helper_create_task(ex, e, st):
+    outs = []
+    for s2, t in create_task_call(ex, e, st):
+        if not isinstance(t, Raise):
+            s2.ghost['helper'] = to_val(t, s2)
+            s2.assume(Not(s2.readz('task_done', Val.ref(to_val(t, s2)))), Not(s2.readz('cancel_requested', Val.ref(to_val(t, s2)))))
+        outs.append((s2, t))
+    return outs
+
+
+def await_first_completed(ex, node, st):
+    """asyncio.wait([t1, t2], return_when=FIRST_COMPLETED): returns when one of them is finished; a task running Event.wait()
+    finishes only when the event is set (or the task is cancelled)"""
+    outs = []
+    for s1, lst in ex.ev(node.args[0], st):
+        items = lst.items if isinstance(lst, PTuple) else None
+        if items is None or len(items) != 2: raise Unsupported('asyncio.wait: expected a list of two tasks')
+        t1, t2 = (Val.ref(to_val(x, s1)) for x in items)
+        me = _me(s1)
+        def results(s, t1=t1, t2=t2):
+            s.assume(Or(s.readz('task_done', t1), s.readz('task_done', t2)))
+            ev = coro_recv(task_coro(t1))
+            s.assume(Not(s.readz('task_cancelled', t1)))        # A-cancel: nobody else knows (or cancels) the helper task
+            s.assume(Implies(s.readz('task_done', t1), s.readz('ev_set', ev)))
+            return [(s, PTuple([PSet(K(IntSort(), BoolVal(False)), 'ref'), PSet(K(IntSort(), BoolVal(False)), 'ref')]))]
+        outs.extend(other_await(ex, s1, results, me))
+    return outs
+
+
+def verify_api(run, helper_task=False):
+    G = {'helper': Val.VNone}
+    CHECK_HELPER_TASK[0] = helper_task
+    run.verify('Circuit._check_started', cls='Circuit', hooks={'await': awaits({'asyncio.sleep(0)': await_other_sleep})})
+    run.verify('Circuit.wait_init', cls='Circuit', ghost=G,
+               calls={'self._init_done.wait': init_done_wait, 'asyncio.create_task': helper_create_task,
+                      'self._simtask.done': task_pred('task_done'), 'self._simtask.cancelled': task_pred('task_cancelled'),
+                      'self._simtask.exception': task_exception_call},
+               hooks={'opaque_fstrings': True,
+                      'await': awaits({'asyncio.wait(*': await_first_completed,
+                                       '*': await_contracted})})
+
+
+# ---- Circuit.shutdown ------------------------------------------------------------------------------------------------------------------------
+def await_simtask(ex, node, st):
+    """`await self._simtask`: returns/raises what run_forever ends with (contract of run_forever: it raises Circuit.error)"""
+    me = _me(st)
+    t = Val.ref(st.readz('_simtask', me))
+    def results(s):
+        import asyncio as _aio
+        s.assume(s.readz('task_done', t), is_exception(s.readz('_error', me)))
+        err = s.readz('_error', me); r = Val.ref(err)
+        outs = []
+        for cls, cond in (('CancelledError', calls.inst_of(r, _aio.CancelledError)),
+                          ('StoredException', And(Not(calls.inst_of(r, _aio.CancelledError)), calls.inst_of(r, Exception))),
+                          ('StoredBaseException', And(Not(calls.inst_of(r, _aio.CancelledError)), Not(calls.inst_of(r, Exception))))):
+            s2 = s.copy(); s2.assume(cond); s2.label(f'simtask:{cls}')
+            outs.append((s2, Raise(PExc(cls, val=err, where='callee'))))
+        return outs
+    return other_await(ex, st, results, me)
+
+
+@contract('Circuit.is_current_task', qual=Q + 'is_current_task', modifies=(), self_cls='Circuit', result=BOOL)
+def _is_current_task(c):
+    me = c.z('self')
+    c.ensures('false_before_the_start', Implies(c.pre('_simtask', me) == Val.VNone, Not(as_kind(c.result, BOOL))))
+
+
+def current_task_other(ex, e, st):
+    """asyncio.current_task() in some task (possibly the simulation task); may raise RuntimeError without a running loop"""
+    t = fresh('curtask', IntSort())
+    bad = st.copy(); bad.label('no_running_loop')
+    return [(st, ZV('val', Val.Obj(t))), (bad, Raise(PExc('RuntimeError', val=Val.Obj(fresh('exc', IntSort())), where='callee')))]
+
+
+@contract('Circuit.shutdown', qual=Q + 'shutdown', modifies=API_EFFECTS, self_cls='Circuit')
+def _shutdown(c):
+    import asyncio as _aio
+    me = c.z('self')
+    c.requires('J', J(c.S, me))
+    c.requires('the_only_circuit', me == CIRC)
+    c.requires('error_is_none_or_an_exception', Or(c.pre('_error', me) == Val.VNone, is_exception(c.pre('_error', me))))
+    err = lambda post: post.f('_error', me)
+    c.ensures('the_simulation_is_over', And(c.post('_simtask', me) != Val.VNone, c.post('task_done', Val.ref(c.post('_simtask', me))), err(c.T) != Val.VNone))
+    c.raises('EdzedInvalidState', unchanged=False, label='not_started_or_called_from_the_simulation_task')
+    for cls in ('StoredException', 'StoredBaseException'):
+        c.raises(cls, unchanged=False, label=f'the_recorded_error_is_re-raised:{cls}',
+                 ensures=lambda post, exc: [exc == err(post), Not(calls.inst_of(Val.ref(exc), _aio.CancelledError)),
+                                            Implies(c.pre('_error', me) != Val.VNone, exc == c.pre('_error', me))])
+    if not c.verifying: return
+    c.ensures('a_cancellation_counts_as_a_normal_stop', calls.inst_of(Val.ref(err(c.T)), _aio.CancelledError))
+    def expected(k, r, st):
+        return [('stops_the_simulation_through_abort_with_a_cancellation',
+                 And(k == 0, Rec.fn(r) == StringVal('abort'), Rec.recv(r) == Val.Obj(me), Val.is_Obj(Rec.a0(r)),
+                     calls.inst_of(Val.ref(Rec.a0(r)), _aio.CancelledError)))]
+    c.expect_trace(expected, 1, normal_len=None, predicate=True)
+
+
+def abort_in_shutdown(ex, e, st):
+    """self.abort(asyncio.CancelledError('shutdown')): contract of Circuit.abort (C09) for an exception argument"""
+    import asyncio as _aio
+    me = _me(st); st = st.copy()
+    x = fresh('exc', IntSort()); st.assume(calls.inst_of(x, _aio.CancelledError), calls.inst_of(x, BaseException))
+    ex.emit(st, rec('abort', Val.Obj(me), Val.Obj(x)))
+    old = st.readz('_error', me)
+    st.heap['_error'] = Store(st.comp('_error', Val), me, If(old != Val.VNone, old, Val.Obj(x)))
+    st.havoc_field('cancel_requested')
+    return [(st, P_NONE)]
+
+
+def verify_shutdown(run):
+    run.verify('Circuit.is_current_task', cls='Circuit', calls={'asyncio.current_task': current_task_other})
+    run.verify('Circuit.shutdown', cls='Circuit', calls={'self.abort': abort_in_shutdown},
+               hooks={'await': awaits({'self._simtask': await_simtask, '*': await_contracted})})
+
+
+def lifecycle_scans(run):
+    """the syntactic side conditions of the cancellation model and of the cross-task invariant J"""
+    from pyvc import scan
+    sites = []
+    for file, tree in scan.trees().items():
+        for scope, n in scan._walk_scoped(tree):
+            if isinstance(n, ast.Call) and isinstance(n.func, ast.Attribute) and n.func.attr == 'cancel':
+                sites.append(f"{file}:{'.'.join(scope)}:{ast.unparse(n.func.value)}")
+    sites = sorted(set(sites))
+    expected = ['edzed/addons.py:AddonMainTask.stop_async:self._mtask', 'edzed/blocklib/sblocks2.py:OutputAsync._ctrl_cancel:task',
+                'edzed/fsm.py:FSM._stop_timer:timer', 'edzed/simulator.py:Circuit._run_tasks:other', 'edzed/simulator.py:Circuit.abort:self._simtask',
+                'edzed/simulator.py:Circuit.wait_init:init_wait', 'edzed/simulator.py:run:task']
+    run.scan('cancel_sites', sites == expected,
+             f'A-cancel: Circuit.abort is the only edzed code that cancels the simulation task (run() cancels all_tasks[1:], never the simulation task): {sites}')
+    for attr, writers in (('_init_done', ['edzed/simulator.py:Circuit.__init__', 'edzed/simulator.py:Circuit.run_forever']),      # __init__: annotation only
+                          ('_simtask', ['edzed/simulator.py:Circuit.__init__', 'edzed/simulator.py:Circuit.run_forever'])):
+        w = scan.attr_writers(attr)
+        run.scan(f'writers_of_{attr}', w == writers, f'{w}')
+    uses = []
+    for file, tree in scan.trees().items():
+        for scope, n in scan._walk_scoped(tree):
+            if isinstance(n, ast.Attribute) and n.attr in ('set', 'clear') and isinstance(n.value, ast.Attribute) and n.value.attr == '_init_done':
+                uses.append(f"{file}:{'.'.join(scope)}:{n.attr}")
+    run.scan('init_done_is_set_only_by_run_forever_and_never_cleared', sorted(set(uses)) == ['edzed/simulator.py:Circuit.run_forever:set'], f'{uses}')
+    callers = scan.method_callers('_run_tasks')
+    run.scan('run_tasks_callers', callers == ['edzed/simulator.py:Circuit._init_sblocks_async', 'edzed/simulator.py:Circuit._stop_sblocks'], f'{callers}')
+    callers = scan.method_callers('_stop_sblocks')
+    run.scan('stop_sblocks_callers', callers == ['edzed/simulator.py:Circuit.run_forever'], f'{callers}')
+
+
+# ---- no modification after the end: check_not_finalized and its callers -------------------------------------------------------------------------
+@contract('Circuit.check_not_finalized', qual=Q + 'check_not_finalized', modifies=(), self_cls='Circuit')
+def _check_not_finalized(c):
+    me = c.z('self')
+    c.requires('error_is_none_or_an_exception', Or(c.pre('_error', me) == Val.VNone, is_exception(c.pre('_error', me))))
+    c.raises('EdzedInvalidState', when=Or(c.pre('_error', me) != Val.VNone, c.pre('_finalized', me)), iff=True, label='finalized_or_shut_down')
+
+
+@contract('Circuit.set_persistent_data', qual=Q + 'set_persistent_data', modifies=('persistent_dict',), self_cls='Circuit')
+def _set_persistent_data(c):
+    me = c.z('self')
+    c.requires('error_is_none_or_an_exception', Or(c.pre('_error', me) == Val.VNone, is_exception(c.pre('_error', me))))
+    c.raises('EdzedInvalidState', when=Or(c.pre('_error', me) != Val.VNone, c.pre('_finalized', me)), iff=True, label='finalized_or_shut_down')
+    c.ensures('storage_set', c.post('persistent_dict', me) == c.v('persistent_dict'))
+
+
+@contract('Circuit.addblock', qual=Q + 'addblock', modifies=('_blocks',), self_cls='Circuit', params={'blk': Ref()})
+def _addblock(c):
+    me = c.z('self')
+    c.requires('error_is_none_or_an_exception', Or(c.pre('_error', me) == Val.VNone, is_exception(c.pre('_error', me))))
+    closed = Or(c.pre('_error', me) != Val.VNone, c.pre('_finalized', me))
+    c.raises('EdzedInvalidState', when=closed, label='finalized_or_shut_down')
+    c.raises('TypeError', when=Not(closed), label='not_a_block')
+    c.raises('ValueError', when=Not(closed), label='duplicate_name')
+    c.ensures('only_while_the_circuit_is_open', Not(closed))
+
+
+def verify_no_modification(run):
+    from pyvc import scan
+    run.verify('Circuit.check_not_finalized', cls='Circuit')
+    run.verify('Circuit.set_persistent_data', cls='Circuit')
+    run.verify('Circuit.addblock', cls='Circuit')
+    callers = scan.method_callers('check_not_finalized')
+    run.scan('check_not_finalized_callers', callers == ['edzed/block.py:CBlock.connect', 'edzed/simulator.py:Circuit.addblock', 'edzed/simulator.py:Circuit.set_persistent_data'], f'{callers}')
+    callers = scan.method_callers('addblock')
+    run.scan('every_block_registers_through_addblock', callers == ['edzed/block.py:Block.__init__'], f'{callers}')
+    err, fin, task = Const('err', Val), Const('finalized', BoolSort()), Const('simtask', Val)
+    run.lemma('after_the_end/no_restart_and_no_modification', [err != Val.VNone, task != Val.VNone],
+              And(Or(err != Val.VNone, fin), task != Val.VNone))
